@@ -17,7 +17,7 @@ from .common import paths
 from .common.runner import Check
 
 paths.ensure_repo_on_path()
-from delphin import tsdb, tsql  # noqa: E402
+from delphin import itsdb, tsdb, tsql  # noqa: E402
 
 
 def cps(s):
@@ -287,6 +287,69 @@ def gen_query(rng, sch, tier, data=None):
     mismatch_p = 0.25 if rng.random() < 0.12 else 0.0
     wheres = [gen_tree(rng, sch, prefer, rng.choice([0, 0, 1, 1, 2, 3, 4]), mismatch_p, data) for _ in range(nw)]
     return {"proj": proj, "rels": rels, "wheres": wheres}
+
+
+def shared_columns(sch):
+    """unqualified column names that occur in two or more relations, with those relations in schema order"""
+    where = {}
+    for rel, fields in sch:
+        for f in fields:
+            where.setdefault(f[0], []).append(rel)
+    return {c: rs for c, rs in where.items() if len(rs) > 1}
+
+
+def gen_session(rng, sch, data):
+    """3-8 queries for ONE database object: consecutive queries resolve the same unqualified shared column
+    under different `from` clauses / different required relation sets; the last repeats the first."""
+    shared = shared_columns(sch)
+    c = rng.choice(sorted(shared))
+    rs = shared[c]
+    cols = all_columns(sch)
+
+    def other_col(rel):
+        opts = [x[1] for x in cols if x[0] == rel and x[1] != c]
+        return rng.choice(opts) if opts else None
+    first = {"proj": [c], "rels": [], "wheres": []}
+    qs = [first]
+    for _ in range(rng.choice([2, 3, 3, 4, 5, 6])):
+        r = rng.random()
+        rel = rng.choice(rs)
+        if r < 0.45:
+            q = {"proj": [c], "rels": [rel], "wheres": []}
+        elif r < 0.6:
+            o = other_col(rel)
+            q = {"proj": [c] + ([o] if o else []), "rels": [rel], "wheres": []}
+        elif r < 0.7:
+            q = {"proj": [c], "rels": rng.sample(rs, min(2, len(rs))), "wheres": []}
+        elif r < 0.8:
+            o = other_col(rel)
+            q = {"proj": [c] + ([rel + "." + o] if o else []), "rels": [], "wheres": []}
+        elif r < 0.9:
+            q = {"proj": [c], "rels": [rel] if rng.random() < 0.5 else [],
+                 "wheres": [gen_leaf(rng, sch, [rel], 0.0, data)]}
+        else:
+            q = {"proj": ["*"], "rels": [rel], "wheres": []}
+        qs.append(q)
+        if rng.random() < 0.5:
+            qs.append(first)
+    qs.append(first)
+    return qs[:7] + [first] if len(qs) > 8 else qs, c
+
+
+def diverge(rng, sch, data, c):
+    """make the same-named column differ between its relations: an extra (dangling) row in one of them,
+    a repeated row in another"""
+    fields = dict((rel, f) for rel, f in sch)
+    rels = shared_columns(sch)[c]
+    a = rng.choice(rels)
+    row = [gen_value(rng, f[1], f[2], f[0]) for f in fields[a]]
+    i = [f[0] for f in fields[a]].index(c)
+    f = fields[a][i]
+    row[i] = {"integer": "9", "string": "zz", "date": "9-sep-2009"}[f[1]]
+    data[a].append(row)
+    b = rng.choice([r for r in rels if r != a] or rels)
+    if data[b]:
+        data[b].append(list(rng.choice(data[b])))
 
 
 # ---- printing (text and intended tokens)
@@ -925,12 +988,89 @@ class C11(Check):
         "the iteration order of a Python set (model flag ordered=false); the oracle compares multisets for every "
         "multi-relation query and exact order for single-relation queries",
         "':today'/'now' literals are only checked to parse to a datetime",
+        "sequences of 3-8 queries run against ONE tsdb.Database object (30 %: one itsdb.TestSuite object); each "
+        "answer must equal the nested-loop answer of that query alone and the answer of a fresh Database, and "
+        "repeating the first query must repeat its answer; TestSuite sequences have no empty key fields because a "
+        "TestSuite turns an empty :integer key into -1 on the joined side only (observation: on a TestSuite "
+        "parse.run-id=-1 joins a run row with empty run-id and an empty parse.run-id joins nothing; on a Database "
+        "it is the other way round)",
         "the relational oracle judges only schemas inside the property's quantifier: relations linked by key "
         "columns in a tree (the incidence graph relations--key names is a forest); schemas with a cycle of shared "
         "keys (e.g. fs(parse-id,i-id) beside item and parse) are a correspondence-only stream (model vs code)",
     ]
     trusted_base = ["hand-written model lean/Verif/C11/Model.lean, tied to delphin.tsql by the correspondence run",
                     "harness/c11.py: printer, recogniser of the documented grammar, nested-loop relational oracle"]
+
+    def tables(self):
+        """Pins: the constants of the anchored code that the hand-written model (and the oracle) mirror, read
+        from the live objects on every run: the lexer's (regex, class) list in order and its flags, the operator
+        table, per function the constants of its code object (nested code objects flattened; docstrings and
+        message texts dropped), the globals it loads in order for the functions whose token-class lists matter,
+        and default arguments."""
+        import dis
+        import types
+        from .common import tables as T
+        from delphin import util
+        lit = T.lean_strlit
+        msg = re.compile(r"[A-Za-z']{3,} [A-Za-z'{*]|: $|^, $")
+
+        def render(c):
+            if isinstance(c, tuple):
+                return "(" + ",".join(render(x) for x in c) + ")"
+            return c if isinstance(c, str) else repr(c)
+
+        def consts(code, doc):
+            out = []
+            for c in code.co_consts:
+                if isinstance(c, types.CodeType):
+                    out.append("<" + c.co_name + ">")
+                    out.extend(consts(c, None))
+                elif isinstance(c, str) and (c == doc or msg.search(c)):
+                    continue
+                else:
+                    out.append(render(c))
+            return out
+
+        def globs(fn):
+            return [i.argval for i in dis.get_instructions(fn) if i.opname == "LOAD_GLOBAL"]
+
+        fns = ["_parse_query", "_parse_select", "_parse_select_where", "_parse_condition_disjunction",
+               "_parse_condition_conjunction", "_parse_condition_statement", "_select", "_make_execution_plan",
+               "_project_all", "_make_qname_resolver", "_plan_joins", "_pivot_relations",
+               "_process_condition_fields", "_expected_type", "_process_condition_function", "_join",
+               "_merge_fields", "select", "query"]
+        gfns = ["_parse_select", "_parse_select_projection", "_parse_select_from", "_parse_select_where",
+                "_parse_condition_disjunction", "_parse_condition_conjunction", "_parse_condition_statement",
+                "_expected_type"]
+
+        def pairs(xs):
+            return "[%s]" % ", ".join("(%s, %s)" % (lit(a), lit(b)) for a, b in xs)
+
+        def named(xs):
+            return "[\n  %s]" % ",\n  ".join("(%s, [%s])" % (lit(n), ", ".join(lit(v) for v in vs)) for n, vs in xs)
+        toks = [(rx, name.partition(":")[0]) for rx, name in tsql._TSQLLexer.tokens]
+        defaults = [("_join", render(tsql._join.__defaults__)), ("select", render(tsql.select.__defaults__)),
+                    ("query.kwdefaults", render(tsql.query.__kwdefaults__)),
+                    ("Selection.select.kwdefaults", repr(tsql.Selection.select.__kwdefaults__)),
+                    ("Selection.__init__", render(tsql.Selection.__init__.__defaults__)),
+                    ("LookaheadLexer.__init__", render(util.LookaheadLexer.__init__.__defaults__)),
+                    ("Database.select_from", render(tsdb.Database.select_from.__defaults__)),
+                    ("Database._select_raw", render(tsdb.Database._select_raw.__defaults__))]
+        return [
+            "def c11LexerTokens : List (String × String) := [\n  %s]"
+            % ",\n  ".join("(%s, %s)" % (lit(a), lit(b)) for a, b in toks),
+            "def c11LexerFlags : Nat := %d" % tsql._TSQLLexer._re.flags,
+            "def c11Operators : List (String × String) := %s"
+            % pairs((k, f.__name__) for k, f in tsql._operator_functions.items()),
+            "def c11FnConsts : List (String × List String) := %s"
+            % named((n, consts(getattr(tsql, n).__code__, getattr(tsql, n).__doc__)) for n in fns),
+            "def c11FnGlobals : List (String × List String) := %s" % named((n, globs(getattr(tsql, n))) for n in gfns),
+            "def c11Defaults : List (String × String) := %s" % pairs(defaults),
+            "def c11PrelexConsts : List String := [%s]"
+            % ", ".join(lit(v) for v in consts(util.Lexer.prelex.__code__, util.Lexer.prelex.__doc__)),
+            "def c11FieldInitConsts : List String := [%s]"
+            % ", ".join(lit(v) for v in consts(tsdb.Field.__init__.__code__, tsdb.Field.__init__.__doc__)),
+        ]
 
     def setup(self):
         self.tmp = tempfile.mkdtemp(prefix="c11-", dir="/var/tmp")
@@ -973,6 +1113,22 @@ class C11(Check):
                            (["parse.i-id", "item.i-id", "i-input"], ["item", "parse"]), (["mrs", "i-id"], ["result"]),
                            (["i-id", "i-id"], []), (["run-id"], []), (["run-id"], ["parse"]), (["r-comment", "mrs"], [])):
             yield self.make_case(rng, sch, fixed, {"proj": proj, "rels": rels, "wheres": []}, plain=True)
+        # one database object, consecutive queries that resolve `i-id` under different from clauses
+        sess = {"item": [["10", "a", "1", None], ["20", "b", "2", None], ["30", "c", "3", None]],
+                "run": [["1", "r", None]],
+                "parse": [["1", "1", "10", "1", None], ["2", "1", "10", "2", None], ["3", "1", "30", "1", None],
+                          ["4", "1", "40", "0", None]],
+                "result": [["1", "0", "m"], ["9", "0", "x"]]}
+        for seq in ((["i-id"], []), (["i-id"], ["parse"]), (["i-id"], [])), \
+                   ((["parse-id"], []), (["parse-id"], ["result"]), (["parse-id", "mrs"], []), (["parse-id"], [])), \
+                   ((["i-id"], ["item"]), (["i-id"], ["parse"]), (["i-id", "readings"], []), (["i-id"], ["item"])):
+            for suite in (False, True):
+                steps = []
+                for proj, rels in seq:
+                    sc = self.make_case(rng, sch, sess, {"proj": proj, "rels": rels, "wheres": []}, plain=True)
+                    steps.append({"q": sc["q"], "text": sc["text"], "toks": sc["toks"]})
+                yield {"kind": "session", "schema": sch, "data": sess, "steps": steps, "column": seq[0][0][0],
+                       "suite": suite, "text": steps[0]["text"]}
         for text in ("i-id where i-date = now", "i-id where i-date < :today", "i-id where i-date >= now"):
             yield {"kind": "kwdate", "text": cps(text)}
         for text in ("order where i-id = 1", "i-id where android = 1", "i-id from fromage", "nowhere", "i-id where note = 1",
@@ -1022,7 +1178,27 @@ class C11(Check):
             sch, feats = gen_schema(rng, tier)
             data = gen_data(rng, sch, tier)
             q = gen_query(rng, sch, tier, data)
-            if r < 0.04 and q["wheres"]:
+            if r < 0.13:
+                # one Database (or TestSuite) object, several queries
+                qs, col = gen_session(rng, sch, data)
+                diverge(rng, sch, data, col)
+                suite = rng.random() < 0.3
+                if suite:
+                    # an itsdb.TestSuite reads an empty :integer key as -1 on the joined side only (see the
+                    # observation in the assumptions); TestSuite sessions therefore have no empty key fields
+                    for rel, fields in sch:
+                        for row in data[rel]:
+                            for i, f in enumerate(fields):
+                                if f[2] and row[i] is None:
+                                    row[i] = gen_value(rng, f[1], True, f[0]) or {"integer": "2", "string": "a",
+                                                                                  "date": "1-jan-2020"}[f[1]]
+                steps = []
+                for sq in qs:
+                    sc = self.make_case(rng, sch, data, sq, plain=rng.random() < 0.7)
+                    steps.append({"q": sq, "text": sc["text"], "toks": sc["toks"]})
+                yield {"kind": "session", "schema": sch, "data": data, "steps": steps, "column": col,
+                       "suite": suite, "text": steps[0]["text"], "feats": feats}
+            elif r < 0.16 and q["wheres"]:
                 p = Printer(rng, plain=True, loose_not=True)
                 p.query(q)
                 yield {"kind": "notprec", "text": cps(p.text())}
@@ -1100,6 +1276,34 @@ class C11(Check):
                 return {"parse": {"err": "TSQLSyntaxError"}}
         if k in ("mangled", "kwprefix", "notprec", "lextext"):
             return {"parse": self._parse(text)}
+
+        def run(f):
+            try:
+                with warnings.catch_warnings():
+                    warnings.simplefilter("ignore")
+                    rows = [[None if v is None else cps(v) for v in row] for row in f()]
+                return {"ok": rows}
+            except tsql.TSQLSyntaxError:
+                return {"err": "TSQLSyntaxError"}
+            except tsql.TSQLError:
+                return {"err": "TSQLError"}
+            except KeyError:
+                return {"err": "KeyError"}
+            except StopIteration:
+                return {"err": "StopIteration"}
+        if k == "session":
+            d = self._mkdb(case)
+            try:
+                shared = itsdb.TestSuite(d) if case.get("suite") else tsdb.Database(d)
+                out = []
+                for st in case["steps"]:
+                    t = uncps(st["text"])
+                    got = run(lambda: list(tsql.select(t, shared)))
+                    fresh = run(lambda: list(tsql.select(t, tsdb.Database(d))))
+                    out.append({"parse": self._parse(t), "rows": got, "fresh": fresh})
+            finally:
+                shutil.rmtree(d, ignore_errors=True)
+            return {"steps": out, "parse": out[0]["parse"]}
         res = {"parse": self._parse(text)}
         d = self._mkdb(case)
         try:
@@ -1138,6 +1342,16 @@ class C11(Check):
             return None
         if k == "lextext":
             return {"op": "lex"}
+        if k == "session":
+            reqs = [self._model_request({"kind": "select", "schema": case["schema"], "data": case["data"],
+                                         "q": st["q"], "toks": st["toks"], "text": st["text"]})
+                    for st in case["steps"]]
+            rx = []
+            for r in reqs:
+                for e in r["rx"]:
+                    if e not in rx:
+                        rx.append(e)
+            return {"op": "session", "db": reqs[0]["db"], "rx": rx, "steps": [{"toks": r["toks"]} for r in reqs]}
         if k in ("kwprefix", "notprec"):
             toks = real_tokens(uncps(case["text"]))
             if toks is None:
@@ -1184,6 +1398,17 @@ class C11(Check):
     def model_compare(self, case, expected, answer):
         if "proto_error" in answer:
             return {"proto_error": answer}
+        if case["kind"] == "session":
+            steps = answer.get("steps") or []
+            if len(steps) != len(expected["steps"]):
+                return {"what": "steps", "model": answer}
+            for i, (st, e, a) in enumerate(zip(case["steps"], expected["steps"], steps)):
+                d = self.model_compare({"kind": "select", "q": st["q"], "text": st["text"]},
+                                       {"parse": e["parse"], "rows": e["rows"]}, a)
+                if d is not None:
+                    d["step"] = i
+                    return d
+            return None
         if case["kind"] == "lextext":
             if "lex" in expected and canon_plain(expected["lex"]) != canon_plain(answer):
                 return {"what": "lex", "impl": expected["lex"], "model": answer}
@@ -1227,6 +1452,21 @@ class C11(Check):
             return fails        # recorded only (DESIGN §C11 Limits)
         if k == "lextext":
             return fails        # lexer model correspondence only
+        if k == "session":
+            steps = res["steps"]
+            for i, (st, r) in enumerate(zip(case["steps"], steps)):
+                one = {"kind": "select", "schema": case["schema"], "data": case["data"], "q": st["q"],
+                       "text": st["text"], "toks": st["toks"]}
+                for f in self.oracle(one, {"parse": r["parse"], "rows": r["rows"], "via_query": True}):
+                    f["detail"] = "query %d of the sequence on one database object: %s" % (i, f["detail"])
+                    fails.append(f)
+                if r["rows"] != r["fresh"]:
+                    fail("the answer on a reused database object differs from the answer of a fresh one",
+                         repr((i, [uncps(s["text"]) for s in case["steps"][:i + 1]], r["rows"], r["fresh"])))
+            if steps[-1]["rows"] != steps[0]["rows"]:
+                fail("repeating the first query on the same database object gives a different answer",
+                     repr(([uncps(s["text"]) for s in case["steps"]], steps[0]["rows"], steps[-1]["rows"])))
+            return fails
         if k == "notprec":
             if "ok" not in res["parse"]:
                 fail("a sentence of the documented grammar is rejected", uncps(case["text"]))
@@ -1319,6 +1559,8 @@ class C11(Check):
         return None
 
     def nontrivial_key(self, case, res):
+        if case["kind"] == "session":
+            return repr(([st["text"] for st in case["steps"]], case["data"]))
         if case["kind"] != "select":
             return ("t", tuple(case["text"]))
         q = case["q"]
@@ -1338,6 +1580,14 @@ class C11(Check):
             inc("parse:" + ("ok" if "ok" in p else p["err"]))
         if k == "mangled":
             inc("mangled:" + ("inside" if recognise(case["toks"]) else "outside"))
+            return
+        if k == "session":
+            inc("session:queries=%d" % len(case["steps"]))
+            inc("session:" + ("TestSuite" if case.get("suite") else "Database"))
+            firsts = {json_key(st["q"]["rels"]) for st in case["steps"]}
+            inc("session:distinct-from-clauses=%d" % len(firsts))
+            if any(r["rows"] != res["steps"][0]["rows"] for r in res["steps"] if "ok" in r["rows"]):
+                inc("session:answers-differ-between-queries")
             return
         if k != "select":
             return
@@ -1378,6 +1628,11 @@ class C11(Check):
             pass
         if any(v is None for r in case["data"].values() for row in r for v in row):
             inc("data:has-empty-field")
+
+
+def json_key(x):
+    import json
+    return json.dumps(x, sort_keys=True)
 
 
 def canon_plain(x):
